@@ -6,6 +6,10 @@ use serde::{Deserialize, Serialize};
 
 pub type Slot = usize;
 
+fn yes() -> bool {
+    true
+}
+
 /// Re-entrancy actions executed *inside* a custom derivative closure while a pass is in flight (F11).
 #[derive(Clone, Debug, Serialize, Deserialize, PartialEq)]
 pub enum Reent {
@@ -172,7 +176,9 @@ pub enum Ev {
     Flag { slot: Slot, f: FlagOp },
     /// `dst = src.clone()` followed by the flag operation on `dst` only
     FlagClone { src: Slot, dst: Slot, f: FlagOp },
-    Update { slots: Vec<Slot>, lr: f64 },
+    /// `opt`: a persistent optimizer object (created on first use with `lr`); None = a fresh one.
+    /// `keep_stale`: keep clones of the old handles as observers (F10).
+    Update { slots: Vec<Slot>, lr: f64, #[serde(default)] opt: Option<usize>, #[serde(default = "yes")] keep_stale: bool },
     /// move the handle out of the slot and probe sole ownership with `Vec::<Float>::from`
     Retire { slot: Slot },
     Refuse(Refuse),
@@ -180,11 +186,20 @@ pub enum Ev {
     DropHeld,
     /// placeholder that keeps event indices aligned in forks
     Nop,
+    /// the following events run in a brand-new world on the same thread (used to replay state that
+    /// the code under test leaks from one run into the next, e.g. through a thread-local)
+    NewWorld {
+        #[serde(default)]
+        smooth: bool,
+    },
 
     // ---- training (C14); nesting: TrainOpen > ModelOpen > {Fwd, Bwd, Upd} ----
-    TrainOpen { layers: Vec<LayerSpec>, cost: CostKind, lr: f64 },
+    TrainOpen { layers: Vec<LayerSpec>, cost: CostKind, lr: f64, #[serde(default)] opt: Option<usize> },
     ModelOpen,
-    Fwd { dims: Vec<usize>, vals: Vec<f64>, keep_output: bool, twice: bool },
+    /// `input_slot`: keep a handle of the input batch in this slot (to probe its release later)
+    Fwd { dims: Vec<usize>, vals: Vec<f64>, keep_output: bool, twice: bool, #[serde(default)] input_slot: Option<Slot> },
+    /// start/stop tracking on a layer's own parameter handle (only legal between model sessions)
+    Freeze { layer: usize, param: usize, on: bool },
     Bwd { dims: Vec<usize>, vals: Vec<f64> },
     Upd,
     ModelClose,
@@ -213,9 +228,11 @@ impl Ev {
             Ev::Refuse(_) => "refuse",
             Ev::DropHeld => "dropheld",
             Ev::Nop => "nop",
+            Ev::NewWorld { .. } => "newworld",
             Ev::TrainOpen { .. } => "trainopen",
             Ev::ModelOpen => "modelopen",
             Ev::Fwd { .. } => "fwd",
+            Ev::Freeze { .. } => "freeze",
             Ev::Bwd { .. } => "bwd",
             Ev::Upd => "upd",
             Ev::ModelClose => "modelclose",
